@@ -50,6 +50,13 @@ fn ph_of(e: &str, x: f64) -> Option<Val> {
     }
 }
 
+fn dec_extremes() -> Vec<Val> {
+    let one = Decimal::ONE;
+    let ulp = Decimal::new(1, 28);
+    vec![Decimal::MAX, Decimal::MIN, ulp, -ulp, one + ulp + ulp, one - ulp - ulp, one + ulp, Decimal::new(i64::MAX, 0), Decimal::new(1, 14), Decimal::new(1000000000000, 0),
+         Decimal::MAX / Decimal::new(2, 0), Decimal::new(5, 1)].into_iter().map(Val::D).collect()
+}
+
 fn lit_text(x: f64) -> Option<String> {
     let s = format!("{}", x.abs());
     if s.contains('e') || s.contains("inf") || s.contains("NaN") || s.parse::<f64>().ok()? != x.abs() { return None; }
@@ -101,6 +108,16 @@ pub fn replay_item(out: &mut Out, bv: &Value, rng: &mut Rng, n: usize) {
         _ => {
             let spell = name;
             if cls == "f1" {
+                // the ends of the Decimal format (no double reaches them): largest, smallest, the neighbours of 1 and of 0
+                if e == "dec" {
+                    for ph in dec_extremes() {
+                        let mut asg = Asg::default();
+                        asg.fns.insert(1, func.to_string());
+                        let t = T::Call("f1".into(), 1, vec![T::Ans(3)]);
+                        let exp = expected(e, &t, &asg, &ph);
+                        checked_call(out, e, &format!("{}(@)", spell), &ph, Some(&exp), json!({"v": "accept"}), true, &ctx);
+                    }
+                }
                 for (x, ph) in xs.iter().flat_map(|x| phs_of(e, *x).into_iter().map(move |p| (x, p))) {
                     let mut asg = Asg::default();
                     asg.fns.insert(1, func.to_string());
@@ -140,6 +157,21 @@ pub fn replay_item(out: &mut Out, bv: &Value, rng: &mut Rng, n: usize) {
                                         else { (T::Call("f2".into(), 1, vec![litnode.clone(), T::Ans(3)]), format!("{}({},@)", spell, lt)) };
                         let exp = expected(e, &t, &asg, &ph);
                         checked_call(out, e, &text, &ph, Some(&exp), json!({"v": "accept"}), true, &ctx);
+                    }
+                }
+                if e == "dec" {
+                    let lits = ["1.0000000000000000000000000002", "0.9999999999999999999999999998", "0.0000000000000000000000000001", "79228162514264337593543950335", "2", "1", "10"];
+                    for ph in dec_extremes() {
+                        for l in lits {
+                            let mut asg = Asg::default();
+                            asg.fns.insert(1, func.to_string());
+                            asg.lits.insert(5, (l.to_string(), false));
+                            for (t, text) in [(T::Call("f2".into(), 1, vec![T::Ans(3), T::Num(5)]), format!("{}(@,{})", spell, l)),
+                                              (T::Call("f2".into(), 1, vec![T::Num(5), T::Ans(3)]), format!("{}({},@)", spell, l))] {
+                                let exp = expected(e, &t, &asg, &ph);
+                                checked_call(out, e, &text, &ph, Some(&exp), json!({"v": "accept"}), true, &ctx);
+                            }
+                        }
                     }
                 }
                 // every pair of boundary arguments (both zero, both extreme, mixed signs, the unit, a half)
